@@ -75,9 +75,9 @@ Compact(lg, i) == [base |-> i, bterm |-> TermAt(lg, i), ents |-> Suffix(lg, i + 
 \* takeSnapshot, run by the snapshot loop once the apply loop has applied everything committed
 \* (the state machine asked for it: `arm'): label = lastApplied, log compacted there
 TakeSnapshot(s) ==
-  IF s.arm /\ s.commit > s.li.idx /\ HasIdx(s.log, s.commit)
+  IF s.arm /\ s.commit > s.li.idx /\ HasIdx(s.log, s.commit) /\ s.ccfg.idx # 0 /\ s.ccfg.idx <= s.commit
     THEN LET lbl == [idx |-> s.commit, term |-> TermAt(s.log, s.commit)] IN
-         [s EXCEPT !.arm = FALSE, !.snap = lbl, !.li = lbl, !.log = Compact(s.log, s.commit),
+         [s EXCEPT !.arm = FALSE, !.snap = lbl, !.li = lbl, !.log = Compact(s.log, s.commit), !.scfg = s.ccfg,
                    !.soff = [p \in Node |-> 0]]          \* resetSnapshotFiles
     ELSE s
 
@@ -97,10 +97,12 @@ Quorum(s, count) ==
 SingleServer(s, n) == MembersOf(s) = {n} /\ IsVoter(s, n)
 
 InitNode ==
-  [ term |-> 0, vote |-> Nil, role |-> "F",
+  [ me |-> Nil,                                       \* the node's own id (set in Init)
+    term |-> 0, vote |-> Nil, role |-> "F",
     log |-> [base |-> 0, bterm |-> 0, ents |-> <<BootEntry>>],
     cfg |-> Cfg(1, InitVoters, {}),                   \* r.configuration (Bootstrap)
     ccfg |-> NoCfg,                                   \* r.committedConfiguration (nil until a configuration is applied)
+    scfg |-> NoCfg,                                   \* configuration stored with the newest snapshot
     cfut |-> 0,                                       \* index of the configuration entry an outstanding membership future waits for
     commit |-> 0,
     next |-> [p \in Node |-> 1], match |-> [p \in Node |-> 0],
@@ -147,8 +149,9 @@ BecomeFollower(s, t, site) ==
 BecomeLeader(s, n) ==
   [s EXCEPT !.role = "L", !.reads = {}, !.svq = TRUE,
             !.rs = [idx |-> 0, term |-> 0, off |-> 0], !.soff = [p \in Node |-> 0],
-            !.next = [p \in Node |-> LastIdx(s.log) + 1],
-            !.match = IF "MatchNotReset" \in W THEN s.match ELSE [p \in Node |-> 0],
+            \* (the followers map only holds the members of the configuration in force)
+            !.next = [p \in Node |-> IF p \in MembersOf(s) THEN LastIdx(s.log) + 1 ELSE s.next[p]],
+            !.match = IF "MatchNotReset" \in W THEN s.match ELSE [p \in Node |-> IF p \in MembersOf(s) THEN 0 ELSE s.match[p]],
             !.log = AppendTo(s.log, <<Entry(s.term, "noop", Nil)>>)]
 
 \* becomeCandidate + start of a real vote round
@@ -243,7 +246,7 @@ HandleAE(s, m) ==
                  ELSE AppendTo(Prefix(lg2, Min(LastIdx(lg2), m.prev + j - 1)), SubSeq(m.ents, j, Len(m.ents)))
           c == IF m.commit > s1.commit
                  THEN (IF "FollowerCommitUnchecked" \in W THEN m.commit ELSE Min(m.commit, LastIdx(lg3)))
-                 ELSE s1.commit IN
+                 ELSE s1.commit
           \* a truncation at or below the configuration in force falls back to the committed one
           truncated == j # 0 /\ HasIdx(lg2, m.prev + j)
           cfg2 == IF truncated /\ m.prev + j <= s1.cfg.idx /\ "NoConfigFallback" \notin W THEN s1.ccfg ELSE s1.cfg IN
@@ -253,7 +256,10 @@ HandleAE(s, m) ==
 \* commitLoop body: the largest index of the current term replicated on a quorum of voters
 CommitIndexOf(s, n) ==
   LET ok(i) == /\ (At(s.log, i).t = s.term \/ "CommitAnyTerm" \in W)
-               /\ Quorum(s, 1 + Cardinality({p \in (IF "CommitCountsNonVoters" \in W THEN MembersOf(s) ELSE VotersOf(s)) \ {n} : s.match[p] >= i}))
+               \* the leader counts itself only if it is a voter (fix S20: a leader demoted to a
+               \* non-voter used to count itself; LeaderCountsItself restores that)
+               /\ Quorum(s, (IF IsVoter(s, n) \/ "LeaderCountsItself" \in W THEN 1 ELSE 0)
+                            + Cardinality({p \in (IF "CommitCountsNonVoters" \in W THEN MembersOf(s) ELSE VotersOf(s)) \ {n} : s.match[p] >= i}))
       S == {i \in (s.commit + 1)..LastIdx(s.log) : HasIdx(s.log, i) /\ ok(i)} IN
   IF S = {} THEN s.commit ELSE CHOOSE i \in S : \A k \in S : k <= i
 
@@ -283,7 +289,7 @@ ISRequest(s, n, p) ==
   LET off == s.soff[p]
       nbytes == SnapSize - off IN
   [kind |-> "is", from |-> n, term |-> s.term, idx |-> s.snap.idx, sterm |-> s.snap.term,
-   off |-> off, n |-> nbytes, done |-> nbytes < 2 \/ SnapSize = 1]
+   off |-> off, n |-> nbytes, done |-> nbytes < 2 \/ SnapSize = 1, cfg |-> s.scfg]
 
 HandleIS(s, m) ==
   LET rep(st, w) == [s |-> st, reply |-> [term |-> st.term, written |-> w]] IN
@@ -305,14 +311,16 @@ HandleIS(s, m) ==
         ELSE
           \* publish (under the label the file was created with); the node's boundary comes from the request
           LET pub == [idx |-> f2.idx, term |-> f2.term]
-              s2 == [s1 EXCEPT !.rs = [idx |-> 0, term |-> 0, off |-> 0], !.snap = pub,
+              s2 == [s1 EXCEPT !.rs = [idx |-> 0, term |-> 0, off |-> 0], !.snap = pub, !.scfg = m.cfg,
                                !.li = [idx |-> m.idx, term |-> m.sterm]]
               keep == HasIdx(s2.log, m.idx) /\ (TermAt(s2.log, m.idx) = m.sterm \/ "InstallKeepsLogAnyTerm" \in W) IN
           IF keep
             THEN rep(CompactParked(s2), f2.off)       \* log kept; compacted once the boundary is applied
             ELSE \* restore the state machine from the newest snapshot, discard the whole log
-                 rep([s2 EXCEPT !.commit = m.idx, !.log = [base |-> m.idx, bterm |-> m.sterm, ents |-> <<>>],
-                                !.pend = s2.pend], f2.off)
+                 \* and applyConfiguration(request.Configuration)
+                 LET s3 == [s2 EXCEPT !.commit = m.idx, !.log = [base |-> m.idx, bterm |-> m.sterm, ents |-> <<>>]]
+                     newer == ~(s3.ccfg.idx # 0 /\ m.cfg.idx <= s3.ccfg.idx) IN
+                 rep(IF newer THEN [s3 EXCEPT !.cfg = m.cfg, !.ccfg = m.cfg] ELSE s3, f2.off)
 
 OnISReply(s, n, p, m, r) ==
   IF r.term > s.term THEN BecomeFollower(s, r.term, "isr")
@@ -362,8 +370,14 @@ ApplyCfgs(s, i, hi) ==
   ELSE IF s.ccfg.idx # 0 /\ i <= s.ccfg.idx THEN ApplyCfgs([s EXCEPT !.cfut = IF s.cfut = i THEN 0 ELSE s.cfut], i + 1, hi)
   ELSE LET e == At(s.log, i)
            nc == Cfg(i, e.v.v, e.v.n)
-           out == s.role = "L" /\ ~(\E m \in nc.v \cup nc.n : TRUE /\ m = s.me)
-           s1 == [s EXCEPT !.cfg = nc, !.ccfg = nc, !.cfut = IF s.cfut = i THEN 0 ELSE s.cfut]
+           out == s.role = "L" /\ s.me \notin (nc.v \cup nc.n)
+           \* nextConfiguration creates the follower state of added members: replication starts at
+           \* index 1 (before fix S19 the zero value, which a leader takes for "covered by a
+           \* snapshot" and then sends nothing at all)
+           added == (nc.v \cup nc.n) \ MembersOf(s)
+           s1 == [s EXCEPT !.cfg = nc, !.ccfg = nc, !.cfut = IF s.cfut = i THEN 0 ELSE s.cfut,
+                           !.next = [q \in Node |-> IF q \in added THEN (IF "NewFollowerNextZero" \in W THEN 0 ELSE 1) ELSE s.next[q]],
+                           !.match = [q \in Node |-> IF q \in added THEN 0 ELSE s.match[q]]]
            s2 == IF out THEN [s1 EXCEPT !.role = "F", !.pend = <<>>, !.reads = {}, !.svq = TRUE] ELSE s1 IN
        ApplyCfgs(s2, i + 1, hi)
 
@@ -507,6 +521,42 @@ AEHalf(n, p) ==
   /\ UNCHANGED net
 
 
+
+\* AddServer / RemoveServer at a leader.  Guards as in the code (incl. fix aae2d61: a change
+\* whose future is outstanding is pending).  The leader adopts an ADDED server's configuration
+\* when it appends the entry, a REMOVAL only when it applies it.
+PendingCfg(s) == s.cfut # 0 \/ s.ccfg.idx = 0 \/ s.ccfg.idx # s.cfg.idx
+MemberChange(n, nc, adopt) ==
+  LET s == ns[n]
+      i == LastIdx(s.log) + 1 IN
+  /\ s.role = "L" /\ CommittedThisTerm(s)
+  /\ ~PendingCfg(s) \/ "TwoPendingChanges" \in W
+  \* environment restriction of the S5-free configurations (not a property of the code): a change
+  \* is only requested once every running node has applied the configuration in force, so that
+  \* no node is ever two configurations behind (known finding S5, DESIGN.md 12.4)
+  /\ "Env:S5Free" \in W => \A q \in Node : ns[q].role = "D" \/ ns[q].cfg.idx = 0 \/ ns[q].ccfg.idx = s.cfg.idx
+  /\ i <= MaxLog
+  /\ budget.cfg > 0 /\ budget' = [budget EXCEPT !.cfg = budget.cfg - 1]
+  /\ LET s1 == [s EXCEPT !.log = AppendTo(s.log, <<Entry(s.term, "cfg", [v |-> nc.v, n |-> nc.n])>>),
+                         !.cfut = i,
+                         !.cfg = IF adopt THEN Cfg(i, nc.v, nc.n) ELSE s.cfg,
+                         !.next = [q \in Node |-> IF q \in (nc.v \cup nc.n) \ MembersOf(s) THEN 1 ELSE s.next[q]]]
+         s2 == IF SingleServer(s1, n) THEN [s1 EXCEPT !.commit = CommitIndexOf(s1, n)] ELSE s1 IN
+     /\ ns' = [ns EXCEPT ![n] = Fin(s, s2)]
+     /\ Hist1(n, s2)
+  /\ UNCHANGED net
+
+AddServer(n, p, voter) ==
+  LET s == ns[n] IN
+  /\ ~(p \in MembersOf(s) /\ (p \in s.cfg.v) = voter)
+  /\ MemberChange(n, [v |-> IF voter THEN s.cfg.v \cup {p} ELSE s.cfg.v \ {p},
+                      n |-> IF voter THEN s.cfg.n \ {p} ELSE s.cfg.n \cup {p}], TRUE)
+
+RemoveServer(n, p) ==
+  LET s == ns[n] IN
+  /\ p \in MembersOf(s)
+  /\ MemberChange(n, [v |-> s.cfg.v \ {p}, n |-> s.cfg.n \ {p}], "RemoveAdoptsAtAppend" \in W)
+
 \* the state machine will ask for a snapshot after the next entry it applies
 ArmSnapshot(n) ==
   /\ Up(n) /\ ~ns[n].arm /\ MaxSnap > 0
@@ -556,8 +606,18 @@ Crash(n) ==
   /\ LET dt == IF "TermNotPersisted" \in W THEN 0 ELSE s.dterm
          dv == IF "VoteNotPersisted" \in W \/ "TermNotPersisted" \in W THEN Nil ELSE s.dvote
          \* restore(): the log as it is on disk, boundary and commit/applied from the newest snapshot
-         s1 == [InitNode EXCEPT !.role = "D", !.term = dt, !.vote = dv, !.dterm = dt, !.dvote = dv,
-                                !.log = s.log, !.snap = s.snap, !.li = s.snap, !.commit = s.snap.idx] IN
+         \* restore(): configuration in force = the latest configuration entry in the log, committed
+         \* or not; committed configuration = the one before it (from the log or the snapshot)
+         cidx == {i \in (s.snap.idx + 1)..LastIdx(s.log) : HasIdx(s.log, i) /\ At(s.log, i).k = "cfg"}
+         top == IF cidx = {} THEN 0 ELSE CHOOSE i \in cidx : \A j \in cidx : j <= i
+         below == cidx \ {top}
+         sec == IF below = {} THEN 0 ELSE CHOOSE i \in below : \A j \in below : j <= i
+         asCfg(i) == Cfg(i, At(s.log, i).v.v, At(s.log, i).v.n)
+         cf == IF top # 0 THEN asCfg(top) ELSE s.scfg
+         ccf == IF top = 0 THEN s.scfg ELSE IF sec # 0 THEN asCfg(sec) ELSE s.scfg
+         s1 == [InitNode EXCEPT !.me = s.me, !.role = "D", !.term = dt, !.vote = dv, !.dterm = dt, !.dvote = dv,
+                                !.log = s.log, !.snap = s.snap, !.li = s.snap, !.commit = s.snap.idx,
+                                !.scfg = s.scfg, !.cfg = cf, !.ccfg = ccf] IN
      /\ ns' = [ns EXCEPT ![n] = s1]
      \* C08: the term a node has shown to others never decreases, not even across a crash
      /\ elected' = elected /\ comm' = comm /\ voted' = voted /\ acked' = acked
@@ -589,7 +649,7 @@ VoteRound(s, n) ==
 \* requests of a new replication round of leader n
 ReplRound(s, n) ==
   LET k == s.hbr + 1
-      s1 == [s EXCEPT !.hbr = k, !.cnt = PutF(s.cnt, <<"h", k>>, 1)]
+      s1 == [s EXCEPT !.hbr = k, !.cnt = PutF(s.cnt, <<"h", k>>, IF IsVoter(s, n) \/ "LeaderCountsItself" \in W THEN 1 ELSE 0)]
       ms == {[AERequest(s1, n, p) EXCEPT !.kind = "aeq"] @@ [to |-> p, round |-> k] :
                p \in {q \in MembersOf(s1) \ {n} : s1.next[q] > s1.li.idx}} IN
   [s |-> s1, ms |-> ms]
@@ -680,7 +740,7 @@ AEReply(m) ==
          live == p \in MembersOf(s) /\ s.role = "L" /\ (m.req.term = s.term \/ "NoStaleAEReplyCheck" \in W)
          key == <<"h", m.round>>
          counts == live /\ m.reply.term <= s.term /\ (IsVoter(s, p) \/ "HBCountsNonVoters" \in W)
-         c1 == Get(s.cnt, key, 1) + 1
+         c1 == Get(s.cnt, key, IF IsVoter(s, n) THEN 1 ELSE 0) + 1
          s1 == IF counts THEN (IF Quorum(s, c1) THEN MarkVerified([s EXCEPT !.cnt = PutF(s.cnt, key, c1)], m.round)
                                ELSE [s EXCEPT !.cnt = PutF(s.cnt, key, c1)])
                ELSE s
@@ -714,9 +774,12 @@ Lose(m) ==
 
 -----------------------------------------------------------------------------
 Init ==
-  /\ ns = [n \in Node |-> InitNode]
+  \* members of the bootstrap configuration are bootstrapped; the other nodes start with an
+  \* empty configuration (they never campaign) and wait to be added
+  /\ ns = [n \in Node |-> IF n \in InitVoters THEN [InitNode EXCEPT !.me = n]
+                          ELSE [InitNode EXCEPT !.me = n, !.cfg = NoCfg, !.log = [base |-> 0, bterm |-> 0, ents |-> <<>>]]]
   /\ net = {}
-  /\ budget = [timer |-> MaxTimer, ae |-> MaxAE, client |-> MaxClient, crash |-> MaxCrash, half |-> MaxHalf, snap |-> MaxSnap, read |-> MaxRead]
+  /\ budget = [timer |-> MaxTimer, ae |-> MaxAE, client |-> MaxClient, crash |-> MaxCrash, half |-> MaxHalf, snap |-> MaxSnap, read |-> MaxRead, cfg |-> MaxCfg]
   /\ elected = {} /\ comm = <<>> /\ voted = {} /\ acked = 0 /\ viol = {}
 
 Next ==
@@ -725,6 +788,7 @@ Next ==
   \/ \E n \in Node, v \in Value : ClientSubmit(n, v)
   \/ \E n \in Node : Crash(n) \/ Restart(n) \/ ArmSnapshot(n)
   \/ \E n, p \in Node : ISExchange(n, p)
+  \/ \E n, p \in Node : RemoveServer(n, p) \/ \E voter \in BOOLEAN : AddServer(n, p, voter)
   \/ \E n \in Node : TimerFireA(n) \/ StartRound(n) \/ ClientRead(n)
   \/ \E m \in net : RVHandle(m) \/ RVReply(m) \/ AEHandle(m) \/ AEReply(m) \/ Lose(m)
 
@@ -753,7 +817,7 @@ NoStaleRead == "StaleRead" \notin viol
 
 \* committed entries are on a majority of the voters' durable logs (C04, static membership)
 CommittedDurable ==
-  \A i \in DOMAIN comm :
+  MaxCfg > 0 \/ \A i \in DOMAIN comm :
     Cardinality({n \in InitVoters : HasIdx(ns[n].log, i) /\ At(ns[n].log, i) = comm[i]}) * 2 > Cardinality(InitVoters)
 
 TypeOK ==
